@@ -850,6 +850,35 @@ func (e *Enc) loopWrites(li *loopInfo) (cells map[*ssa.Alloc]bool, heapAll bool,
 			}
 		}
 	}
+	// ghost variables assigned by ghost statements anchored at an assignment inside the loop change in the loop
+	// (ghost statements anchored at calls are covered by the callee's modifies clause or are function-level counters
+	// that the invariants restate)
+	if e.spec != nil {
+		for _, gs := range e.spec.Ghost {
+			if gs.Kind != "set" || !strings.HasPrefix(gs.Anchor, "store ") {
+				continue
+			}
+			f := strings.Fields(gs.Anchor)
+			if len(f) < 2 {
+				continue
+			}
+			inLoop := false
+			for b := range li.blocks {
+				for _, ins := range b.Instrs {
+					if st, ok := ins.(*ssa.Store); ok {
+						if n, k := e.storeOrd(st); n != "" && fmt.Sprintf("%s#%d", n, k) == f[1] {
+							inLoop = true
+						}
+					}
+				}
+			}
+			if inLoop {
+				for _, ks := range e.resolveModifies("ghost." + gs.Target) {
+					heapKeys[ks[0]] = ks[1]
+				}
+			}
+		}
+	}
 	for b := range li.blocks {
 		for _, ins := range b.Instrs {
 			switch ins := ins.(type) {
@@ -964,6 +993,46 @@ func (e *Enc) loopWrites(li *loopInfo) (cells map[*ssa.Alloc]bool, heapAll bool,
 					curArgs = append([]ssa.Value{cc.Value}, cc.Args...) // callback contracts: self first
 				}
 				addSpecModifies(spec)
+				// a callee that runs a closure argument (applies / invokes) also does what that closure does:
+				// the closure's modifies clause and the captured variables it assigns change in the loop
+				for _, hp := range []string{spec.Applies, spec.Invokes} {
+					if hp == "" {
+						continue
+					}
+					for i, p := range spec.Params {
+						if p.Name != hp || i >= len(curArgs) {
+							continue
+						}
+						mc, ok := curArgs[i].(*ssa.MakeClosure)
+						if !ok {
+							heapAll = true
+							continue
+						}
+						cfn := mc.Fn.(*ssa.Function)
+						cs := e.W.Specs.Funcs[funcKey(cfn)]
+						if cs == nil {
+							heapAll = true
+							continue
+						}
+						saved := curArgs
+						curArgs = nil
+						addSpecModifies(cs)
+						curArgs = saved
+						for j, fv := range cfn.FreeVars {
+							if closureWrites(cfn, fv) {
+								if a, isAlloc := mc.Bindings[j].(*ssa.Alloc); isAlloc {
+									if !a.Heap {
+										cells[a] = true
+									} else {
+										addPtr(a.Type().Underlying().(*types.Pointer).Elem())
+									}
+								} else {
+									heapAll = true
+								}
+							}
+						}
+					}
+				}
 				curArgs = nil
 			case *ssa.UnOp:
 				if ins.Op == token.ARROW {
